@@ -333,6 +333,178 @@ def validate_traces(tag, rec_dir, timeout_s=1800, parallel=None):
     return totals, viols
 
 
+def run_trace_spec(tag, trace_file, module, cfg, timeout_s=1800, xmx="4g"):
+    """One single-worker TLC over one trace file with the given trace spec. -> (stats, mismatches[(line, kind, json)])"""
+    d = os.path.join(WORK, tag)
+    os.makedirs(d, exist_ok=True)
+    env = dict(os.environ, VERIF_DATA=os.path.join(ROOT, "data"), TRACE=trace_file, TLC_XSS="1g", TLC_XMX=xmx)
+    p = run(["timeout", str(timeout_s), TLC, "-workers", "1", "-metadir", os.path.join(d, "meta_" + os.path.basename(trace_file)),
+             "-cleanup", "-noGenerateSpecTE", "-config", cfg, module], cwd=SPEC, stdout=subprocess.PIPE,
+            stderr=subprocess.STDOUT, text=True, env=env)
+    open(os.path.join(d, "tlc_%s.log" % os.path.basename(trace_file)), "w").write(p.stdout)
+    if p.returncode == 124:
+        raise ToolError("TLC timed out on %s" % trace_file)
+    unescape = lambda s: s.replace('\\"', '"').replace("\\\\", "\\")
+    stats, mism, bad = None, [], []
+    for line in p.stdout.splitlines():
+        m = STATS_RE.match(line)
+        if m:
+            stats = json.loads(unescape(m.group(1)))
+        m = MISMATCH_RE.match(line)
+        if m:
+            try:
+                info = json.loads(unescape(m.group(3)))[0]
+            except Exception:
+                info = m.group(3)
+            mism.append((int(m.group(1)), m.group(2), info))
+        if line.startswith('"BADSPLIT'):
+            bad.append(line)
+    info = parse_tlc_log(p.stdout)
+    if stats is None or stats["consumed"] != stats["lines"] or info["errors"] or bad:
+        sys.stderr.write(p.stdout[-3000:])
+        raise ToolError("trace %s not consumed / TLC error %s %s" % (trace_file, info["errors"][:2], bad[:2]))
+    stats["states"] = info["distinct"]
+    return stats, mism
+
+
+def unicode_splits():
+    """every code point at which some reference predicate may change (so that runs never straddle one)"""
+    gc = json.load(open(os.path.join(ROOT, "data", "gc14.json")))["segs"]
+    bl = json.load(open(os.path.join(ROOT, "data", "blocks.json")))["blocks"]
+    xc = json.load(open(os.path.join(ROOT, "data", "xmlchars.json")))
+    pts = set()
+    for lo, hi, _ in gc:
+        pts.add(lo); pts.add(hi + 1)
+    for b in bl:
+        pts.add(b["lo"]); pts.add(b["hi"] + 1)
+    for lo, hi in xc["namestart"] + xc["namechar_extra"]:
+        pts.add(lo); pts.add(hi + 1)
+    for w in xc["ws"]:
+        pts.add(w); pts.add(w + 1)
+    for b in (57344, 63744, 983040, 1048574, 1048576, 1114110):
+        pts.add(b)
+    return sorted(p for p in pts if p <= 0x10FFFF)
+
+
+def sweep_unicode(tag):
+    d = os.path.join(WORK, tag)
+    shutil.rmtree(d, ignore_errors=True)
+    os.makedirs(d)
+    sp = os.path.join(d, "splits.json")
+    json.dump(unicode_splits(), open(sp, "w"))
+    t0 = time.time()
+    p = run([BIN, "sweep", "unicode", "--out", d, "--blocks", os.path.join(ROOT, "data", "blocks.json"), "--splits", sp,
+             "--threads", str(NCPU)], stdout=subprocess.PIPE, stderr=subprocess.STDOUT, text=True)
+    if p.returncode != 0:
+        sys.stderr.write(p.stdout[-2000:])
+        raise ToolError("sweep unicode failed")
+    st = json.loads(p.stdout.strip().splitlines()[-1])
+    st["sweep_wall_s"] = round(time.time() - t0, 1)
+    # shard the runs over several TLC processes (each shard repeats the header line)
+    lines = open(os.path.join(d, "unicode.ndjson")).read().splitlines()
+    head, body = lines[0], lines[1:]
+    nsh = min(NCPU, 12)
+    per = (len(body) + nsh - 1) // nsh
+    files = []
+    for i in range(nsh):
+        part = body[i * per:(i + 1) * per]
+        if not part:
+            continue
+        f = os.path.join(d, "shard%02d.ndjson" % i)
+        open(f, "w").write("\n".join([head] + part) + "\n")
+        files.append(f)
+    return d, st, files
+
+
+def sweep_classes(tag, seed, nrand, full_limit):
+    d = os.path.join(WORK, tag)
+    shutil.rmtree(d, ignore_errors=True)
+    os.makedirs(d)
+    fin, pin = os.path.join(d, "full_in.ndjson"), os.path.join(d, "pts_in.ndjson")
+    p = run([sys.executable, os.path.join(ROOT, "tools", "classgen.py"), str(seed), str(nrand), fin, pin, str(full_limit)],
+            stdout=subprocess.PIPE, text=True)
+    if p.returncode != 0:
+        raise ToolError("classgen failed")
+    gen = json.loads(p.stdout.strip().splitlines()[-1])
+    outs = []
+    for (inp, flag, name) in ((fin, ["--full"], "full_out.ndjson"), (pin, [], "pts_out.ndjson")):
+        o = os.path.join(d, name)
+        p = run([BIN, "sweep", "classes", "--in", inp, "--out", o, "--threads", str(NCPU)] + flag,
+                stdout=subprocess.PIPE, stderr=subprocess.STDOUT, text=True)
+        if p.returncode != 0:
+            sys.stderr.write(p.stdout[-2000:])
+            raise ToolError("sweep classes failed")
+        outs.append(o)
+    # shard for TLC
+    files = []
+    for o in outs:
+        lines = open(o).read().splitlines()
+        nsh = max(1, min(12, len(lines) // 20))
+        per = (len(lines) + nsh - 1) // nsh
+        for i in range(nsh):
+            part = lines[i * per:(i + 1) * per]
+            if part:
+                f = "%s.shard%02d" % (o, i)
+                open(f, "w").write("\n".join(part) + "\n")
+                files.append(f)
+    # the interval form of the category data agrees with the segment table (once per check)
+    env = dict(os.environ, VERIF_DATA=os.path.join(ROOT, "data"), TRACE=files[0])
+    p = run([TLC, "-workers", "1", "-metadir", os.path.join(d, "meta_data"), "-cleanup", "-noGenerateSpecTE", "-config",
+             "ClassData.cfg", "ClassTrace.tla"], cwd=SPEC, stdout=subprocess.PIPE, stderr=subprocess.STDOUT, text=True, env=env)
+    if '"DATA-OK"' not in p.stdout or "Error" in p.stdout:
+        sys.stderr.write(p.stdout[-2000:])
+        raise ToolError("data/cativ14.json disagrees with data/gc14.json")
+    tot, mm = parallel_trace_specs(tag, files, "ClassTrace.tla", "ClassTrace.cfg")
+    viols = []
+    for (f, line, kind, info) in mm:
+        ev = json.loads(open(f).read().splitlines()[line - 1])
+        viols.append({"kind": "class", "pat_s": cps_s(ev["pat"]), "flags": cps_s(ev["flags"]), "s_s": "", "call": ev["ev"],
+                      "expected": info, "observed": None, "cut": 0})
+    samples = [cps_s(json.loads(l)["pat"]) for l in open(pin).read().splitlines()[:400:80]]
+    st = {"classes": gen["classes"], "full_sweeps": gen["full"], "events": tot["lines"], "compared": tot["compared"],
+          "unspec": tot["unspec"], "states": tot["states"], "samples": [{"class_expressions": samples}]}
+    log("classes stage %s: %d classes (%d full sweeps), %d events, %d mismatches" % (tag, gen["classes"], gen["full"],
+                                                                                   tot["lines"], len(viols)))
+    return d, st, viols
+
+
+def check_block_generator():
+    """cargo run -p regexml-ucd-blocks (the generator shipped with the repository) must reproduce regexml/src/block.rs,
+    and both must agree with data/blocks.json (derived from Blocks.txt + CompatBlocks.txt)."""
+    problems = []
+    p = run(["cargo", "run", "--offline", "-q", "-p", "regexml-ucd-blocks", "--target-dir", os.path.join(HARN, "target", "blocks")],
+            cwd=REPO, stdout=subprocess.PIPE, stderr=subprocess.PIPE, text=True)
+    if p.returncode != 0:
+        raise ToolError("cannot run regexml-ucd-blocks: " + p.stderr[-500:])
+    trip = lambda txt: re.findall(r'name:\s*"([^"]*)",\s*start:\s*0x([0-9A-Fa-f]+),\s*end:\s*0x([0-9A-Fa-f]+)', txt)
+    gen = [(n, int(a, 16), int(b, 16)) for n, a, b in trip(p.stdout)]
+    src = [(n, int(a, 16), int(b, 16)) for n, a, b in trip(open(os.path.join(REPO, "regexml", "src", "block.rs")).read())]
+    ref = [(b["raw"], b["lo"], b["hi"]) for b in json.load(open(os.path.join(ROOT, "data", "blocks.json")))["blocks"]]
+    if gen != src:
+        problems.append("regexml/src/block.rs is not what regexml-ucd-blocks generates (first difference: %s)" %
+                        str(next(((a, b) for a, b in zip(gen, src) if a != b), (len(gen), len(src)))))
+    if src != ref:
+        problems.append("block.rs differs from Blocks.txt + CompatBlocks.txt (first difference: %s)" %
+                        str(next(((a, b) for a, b in zip(src, ref) if a != b), (len(src), len(ref)))))
+    nall = len(re.findall(r"^\s+[A-Z0-9_]+,$", open(os.path.join(REPO, "regexml", "src", "block.rs")).read(), re.M))
+    return {"problems": problems, "summary": {"generated": len(gen), "block_rs": len(src), "blocks_txt": len(ref)}}
+
+
+def parallel_trace_specs(tag, files, module, cfg, parallel=12):
+    """run_trace_spec over many files side by side"""
+    import concurrent.futures
+    tot = {"lines": 0, "consumed": 0, "states": 0, "compared": 0, "unspec": 0}
+    mism = []
+    with concurrent.futures.ThreadPoolExecutor(max_workers=parallel) as ex:
+        futs = {ex.submit(run_trace_spec, tag, f, module, cfg): f for f in files}
+        for fu in concurrent.futures.as_completed(futs):
+            st, mm = fu.result()
+            for k in tot:
+                tot[k] += st.get(k, 0)
+            mism += [(futs[fu],) + m for m in mm]
+    return tot, mism
+
+
 # ------------------------------------------------------------------------------------------
 # known findings
 # ------------------------------------------------------------------------------------------
